@@ -172,12 +172,12 @@ LodVertexBytes(b, L, i) ==
 LodIndexCount(b, L, i) ==
   LET r == LodRec(b, L, i)
   IN FoldLeft(LAMBDA a, j : a + MeshRec(b, L, j).icount, 0, [j \in 1..r.mesh_count |-> r.mesh_index + j - 1])
-HeaderFacts(b) ==
+HeaderFactsLen(b, flen) ==
   LET L == Layout(b)
       n == L.nLod
       sects == [i \in 1..(2 * n) |-> IF i <= n THEN VSect(L, b, i) ELSE ISect(L, b, i - n)]
   IN [disjoint |-> \A x, y \in 1..(2 * n) : x # y => Disjoint(sects[x], sects[y]),
-      inBounds |-> \A x \in 1..(2 * n) : sects[x][1] >= DataStart(L) /\ sects[x][2] <= Len(b),
+      inBounds |-> \A x \in 1..(2 * n) : sects[x][1] >= DataStart(L) /\ sects[x][2] <= flen,
       sized |-> \A i \in 1..n : LodRec(b, L, i).vsize = LodVertexBytes(b, L, i)
                                 /\ LodRec(b, L, i).isize >= 2 * LodIndexCount(b, L, i)
                                 /\ LodRec(b, L, i).isize < 2 * LodIndexCount(b, L, i) + 32,
@@ -189,4 +189,5 @@ HeaderFacts(b) ==
                          \A j \in r.mesh_index..(r.mesh_index + r.mesh_count - 1) : LET m == MeshRec(b, L, j) IN
                            /\ \A s \in 1..m.streams : m.vb[s] + m.vcount * m.stride[s] <= r.vsize
                            /\ 2 * (m.start_index + m.icount) <= r.isize]
+HeaderFacts(b) == HeaderFactsLen(b, Len(b))
 =============================================================================
